@@ -60,6 +60,7 @@ C05 = [
     ("materialize_reshape_minus1_with_zero_dim", ["materialize_reshape_shape_rule"], "materialize_reshape_shape_rule writes [-1, 0] with allowzero=1 (invalid combination)"),
     ("dynamic_scatter_shape_with_end", ["no_op_dynamic_scatter_nd_rule"], "no_op_dynamic_scatter_nd_rule ignores Shape<end=...>: a partial update is replaced by Identity(updates)"),
     ("expand_binop_rank_extending", ["expand_before_binary_op_rules"], "Expand removed although its target shape is longer than both operands (output rank shrinks)"),
+    ("expand_binop_dynamic_target_shape", ["expand_before_binary_op_rules"], "Expand with a target shape computed at run time (Shape/Concat chains over symbolic dims) removed because the symbolic shapes look broadcast-compatible: a dimension 1 that the Expand stretched to a symbolic size (which the other operand does not supply) is lost"),
     ("expand_binop_prelu_data_operand", ["expand_before_binary_op_rules"], "Expand on the data operand of PRelu removed: PRelu broadcasts only the slope (unidirectional), the result shape shrinks"),
     ("expand_binop_attribute_dropped", ["expand_before_binary_op_rules"], "expand_before_binary_op_rules re-emits BitShift/Mod without direction/fmod"),
 ]
@@ -69,7 +70,7 @@ MANUAL = [
     ("C01", "float_literal_not_f32_exact_next_to_double", r"eager:differs_from_graph_and_python_reading",
      "float literal next to a DOUBLE operand: the converter emits Constant(float32)+CastLike (0.001 -> 0.0010000000475), eager mode converts the Python float "
      "to float64 exactly; documented design of the static route, but the three front ends disagree (also C12)"),
-    ("C01", "python_not_on_tensor_eager", r"eager:raises", "`not X` on a non-scalar BOOL tensor: Python's `not` cannot be overloaded, eager raises ValueError (truth value ambiguous) "
+    ("C01", "python_not_on_tensor_eager", r"eager:(raises|differs_from_graph_and_python_reading)", "`not X` on a non-scalar BOOL tensor: Python's `not` cannot be overloaded, eager raises ValueError (truth value ambiguous) "
      "while the converter translates it to Not"),
     ("C01", "loop_variable_assigned_bare_eager", r"eager:raises", "`v = i` with i a for-loop variable: eager mode binds i to a Python int, so v is a Python int after the loop and returning it raises TypeError ('Unexpected type <class int>'); the graph yields an INT64 tensor"),
     ("C01", "attribute_parameter_with_default_in_model_proto", r"model:(graph_differs_from_python_reading|graph_not_executable)",
@@ -80,6 +81,7 @@ MANUAL = [
      "a replacement that creates an initializer with a fixed name, applied twice in one graph: the second application refers to '<name>_1' which is never registered"),
     ("C07", "multi_output_pattern_insertion_point", r"(invalid|violation_not_executable):neg_and_abs.*",
      "patterns with several output nodes: the replacement nodes are inserted at the position of one output node (documented TODO); a consumer placed earlier uses a value before its definition"),
+    ("C11", "advanced_indices_separated_by_slice", r"(eager|graph)_different_tensor:.*", "A[-1, :, v] with v a 1-D tensor: NumPy moves the dimension of non-adjacent advanced indices to the front of the result, the converter and eager mode index axis by axis (same elements, transposed layout)"),
     ("C11", "negstep_start_below_minus_d", r"eager_different_tensor:.*",
      "A[s::-k] with s < -len: numpy yields an empty result, ONNX Slice clamps the start to 0 for negative steps and returns element 0 (eager and graph on onnxruntime; "
      "onnx.reference follows numpy)"),
@@ -101,6 +103,7 @@ MANUAL = [
      "BatchNormalization<training_mode=1> whose running-statistics outputs are dead: onnx_ir RemoveUnusedNodesPass (part of optimize/rewrite) drops training_mode, switching to inference statistics"),
     ("C03", "ir_version_lt4", r"(corpus_not_executable|violation_not_executable):.*", "models with ir_version < 4: new initializers are not added to the graph inputs as that IR version requires"),
     ("C04", "reduces_to_known_rule_finding", r"(invalid|override|raise|signature):.*", "see C03: inherited rewrite-rule findings (validity / override / exceptions)"),
+    ("C04", "value_name_defined_in_several_scopes", r"raise:.*:ValueError@_core\.py:(register_initializer|name)", "a value name defined in two disjoint scopes (legal ONNX): after a constant-condition If is inlined, the folder registers a folded initializer under a name that the graph already holds and raises ValueError"),
     ("C04", "bn_training_mode_unused_stats", r"(invalid|override):.*", "see C03: training-mode BatchNormalization after dead-output removal is invalid (3 outputs without training_mode)"),
     ("C09", "reduces_to_known_rule_finding", r"(violation_values|violation_not_executable):.*", "see C03: inherited rewrite-rule findings under symbolic shapes"),
     ("C09", "bn_training_mode_unused_stats", r"(violation_values|violation_not_executable):.*", "see C03"),
